@@ -145,11 +145,32 @@ def _private_config(case):
     return str(p)
 
 
-def _mk(case, nrep, path=None):
+def _programme(case, k=0):
+    """programme number k of the case as a complete argument dict of OperatingConditions (0 = as constructed)"""
+    oc = dict(PROGRAMS[case["prog"]][0])
+    oc["cooling"] = dict(oc["cooling"])
+    if k:
+        e = case["edits"][k]
+        oc["cooling"].update(e.get("cooling", {}))
+        for key in ("t_tot", "holding"):
+            if key in e:
+                oc[key] = e[key]
+    return oc
+
+
+def _edit_in_place(opcond, oc):
+    """edit the ATTACHED OperatingConditions object (same identity) to programme `oc`"""
+    for key, val in oc["cooling"].items():
+        opcond.cooling[key] = val
+    opcond.holding = oc.get("holding")
+    opcond.t_tot = oc["t_tot"]
+
+
+def _mk(case, nrep, path=None, prog=0):
     from ethz_snow.snowing import Snowing
     from ethz_snow.operatingConditions import OperatingConditions
 
-    oc, s0 = PROGRAMS[case["prog"]]
+    oc, s0 = _programme(case, prog), PROGRAMS[case["prog"]][1]
     S = Snowing(k={"int": 0, "ext": 0, "s0": s0, "s_sigma_rel": 0}, opcond=OperatingConditions(**oc),
                 Nrep=nrep, configPath=path or _config(case["dim"], case.get("cfg")))
     # constants adjusted directly on the object after construction belong to the object
@@ -220,6 +241,12 @@ def run_impl(case):
             mark = len(EVENTS)
             ref.append(_single(_mk(case, 1), case, i))
             ref_evs.append(EVENTS[mark:])
+        # ... and for every programme the attached operating conditions are edited to (fresh objects, fresh opcond)
+        refs = {"0": ref}
+        for op in case["ops"]:
+            if op[0] == "editOp" and str(op[1]) not in refs:
+                refs[str(op[1])] = [_single(_mk(case, 1, prog=op[1]), case, i) for i in range(nmax)]
+        cur = 0
         # arbitrary state of the global generator before the object is used.  The seed is taken far outside the
         # range of repetition seeds: with gstate = Nrep-1 and one draw the initial state would be IDENTICAL to the
         # state a sequential run leaves behind, and "unchanged" could not be told from "seeded Nrep-1, one draw"
@@ -239,6 +266,10 @@ def run_impl(case):
             if op[0] == "setNrep":
                 S.Nrep = op[1]
                 out.append({})
+            elif op[0] == "editOp":
+                cur = op[1]
+                _edit_in_place(S.opcond, _programme(case, cur))
+                out.append({})
             elif op[0] == "run":
                 try:
                     d = core.VERIF / ".cache" / "c14"
@@ -254,10 +285,11 @@ def run_impl(case):
                 try:
                     df = S.results
                     out.append({"index": [int(i) for i in df.index], "columns": [str(c) for c in df.columns],
-                                "rows": [[_bits(x) for x in r] for r in df.to_numpy().tolist()]})
+                                "rows": [[_bits(x) for x in r] for r in df.to_numpy().tolist()], "prog": cur})
                 except Exception as e:
                     out.append({"raise": core.exc_class(e)})
-        obs = {"raise": None, "out": out, "ref": ref, "ref_evs": ref_evs, "world": _world(w0, nmax)}
+        obs = {"raise": None, "out": out, "ref": ref, "refs": refs, "used_prog": cur, "ref_evs": ref_evs,
+               "world": _world(w0, nmax)}
         # the single run on the USED object, global generator perturbed: must equal the reference
         np.random.seed(4242)
         obs["used"] = [_single(S, case, i) for i in range(min(nmax, 2 if case["dim"] == "homogeneous" else 1))]
@@ -277,6 +309,8 @@ def _model_ops(drv, case):
     ops = []
     nrep = case["nrep"]
     for op in case["ops"]:
+        if op[0] == "editOp":
+            continue          # the programme is configuration: the model's `sim` of the following runs
         if op[0] == "setNrep":
             nrep = op[1]
         if op[0] == "run" and op[1] == "async":
@@ -311,7 +345,11 @@ def compare(case, impl, model):
     if impl.get("raise"):
         dis.append(f"implementation raised outside run/results: {impl['raise']} {impl.get('tb', '')[-300:]}")
         return dis
-    for i, (op, a, b) in enumerate(zip(case["ops"], impl["out"], model["out"])):
+    mout = iter(model["out"])
+    for i, (op, a) in enumerate(zip(case["ops"], impl["out"])):
+        if op[0] == "editOp":
+            continue
+        b = next(mout)
         if op[0] == "setNrep":
             continue
         if op[0] == "run":
@@ -330,7 +368,7 @@ def compare(case, impl, model):
                 continue
             if "raise" in a:
                 continue
-            idx, vals = _interp(b["rows"], impl["ref"])
+            idx, vals = _interp(b["rows"], impl["refs"][str(a.get("prog", 0))])
             if a["index"] != idx:
                 dis.append(f"op {i} results: index impl {a['index']} vs model {idx}")
             elif a["rows"] != vals:
@@ -354,8 +392,9 @@ def predicates(case, impl):
     last_how = None
     tables = []
     for i, (op, a) in enumerate(zip(case["ops"], impl["out"])):
-        if op[0] == "setNrep":
-            nrep = op[1]
+        if op[0] == "setNrep" or op[0] == "editOp":
+            if op[0] == "setNrep":
+                nrep = op[1]
             last_how = None          # the table is only defined again after the next run
             tables = []
             continue
@@ -374,9 +413,13 @@ def predicates(case, impl):
             continue
         if last_how is None or last_how not in ("sequential", "async"):
             continue
-        hist = [(o[1] if o[0] == "run" else f"Nrep={o[1]}") for o in case["ops"][:i] if o[0] in ("run", "setNrep")]
+        hist = [(o[1] if o[0] == "run" else "edit-opcond-in-place" if o[0] == "editOp" else f"Nrep={o[1]}")
+                for o in case["ops"][:i] if o[0] in ("run", "setNrep", "editOp")]
         resized = any(o[0] == "setNrep" for o in case["ops"][:i])
         cls = "first-run" if len(hist) == 1 else ("after-resize" if resized else "after-" + "-".join(hist[:-1]))
+        ref = impl["refs"][str(a.get("prog", 0))] if "raise" not in a else ref
+        if any(o[0] == "editOp" for o in case["ops"][:i]):
+            cls = "after-in-place-edit"
         if "raise" in a:
             out.append(Failure(
                 clause="rep_is_seeded_run", key=f"rep_is_seeded_run|Snowing.results|{last_how}|raises:{a['raise']}|{cls}",
@@ -401,6 +444,7 @@ def predicates(case, impl):
                                detail=f"_run_xD(seed={i}) uses the global generator as {ev}; expected kinetic draw from "
                                       f"seed 2024 and F_rand as the first draw after np.random.seed({i})"))
             break
+    ref = impl["refs"][str(impl.get("used_prog", 0))]
     if impl["used"] != ref[:len(impl["used"])]:
         out.append(Failure(clause="rep_is_seeded_run", key="seeded_run_history_dependent|Snowing._run_xD|",
                            detail="_run_xD(seed=i) on the used object / with another global-generator state differs "
@@ -409,7 +453,8 @@ def predicates(case, impl):
 
 
 def classify(case, impl):
-    hows = "+".join((o[1] if o[0] == "run" else f"Nrep={o[1]}") for o in case["ops"] if o[0] in ("run", "setNrep"))
+    hows = "+".join((o[1] if o[0] == "run" else "edit" if o[0] == "editOp" else f"Nrep={o[1]}")
+                    for o in case["ops"] if o[0] in ("run", "setNrep", "editOp"))
     if case.get("tamper"):
         hows += " [config file rewritten / const adjusted after construction]"
     return [f"dim={case['dim']}" + (f"/{case['cfg']}" if case.get("cfg") else ""), f"nrep={case['nrep']}", f"cpu={case['cpu']}", f"prog={case['prog']}",
@@ -461,6 +506,17 @@ def cases(rng, tier):
                 yield dict(dim="homogeneous", nrep=n1, cpu=rng.choice([1, 2, 16]), prog=rng.choice(progs),
                            ops=[["run", h1], R, ["setNrep", n2], ["run", h2], R], gstate=rng.randrange(1000),
                            gdraws=rng.randrange(1, 5))
+    # the attached OperatingConditions object is edited IN PLACE between runs: later single runs, sequential and
+    # parallel studies must all use the current programme
+    EDITS = [{}, {"cooling": {"rate": 4 / 60}}, {"holding": [dict(duration=200, temp=-8)]},
+             {"t_tot": 1800, "cooling": {"rate": 5 / 60, "end": -50}}]
+    for nrep, h in ((1, ["async", "async"]), (3, ["sequential", "sequential"]), (3, ["sequential", "async"]),
+                    (3, ["async", "sequential"]), (2, ["async", "async"]), (3, ["sequential", "sequential", "async"])):
+        ops = [["run", h[0]], R]
+        for j, how in enumerate(h[1:]):
+            ops += [["editOp", rng.choice([1, 2, 3]) if j == 0 else 0], ["run", how], R]
+        yield dict(dim="homogeneous", nrep=nrep, cpu=rng.choice([1, 2, 16]), prog="C", ops=ops, edits=EDITS,
+                   gstate=rng.randrange(1000), gdraws=rng.randrange(1, 5))
     # the configuration file is rewritten / constants are adjusted AFTER construction: sequential and parallel rows
     # must both be the single runs on the object's OWN constants
     for tamper in ({"file": "kinetics:\n  b: 31.0\n"}, {"const": {"b": 30.5}},
